@@ -41,6 +41,28 @@ func observeStaging(w *core.World, st *core.Step) {
 			sb[id] = b
 		}
 	}
+	// per path: the bytes the file had when `add` last (re)staged it -- whatever id the entry got
+	sp, _ := w.Shadow["stagedBytesByPath"].(map[string][]byte)
+	if sp == nil {
+		sp = map[string][]byte{}
+		w.Shadow["stagedBytesByPath"] = sp
+	}
+	pre, _ := idx(st.Pre)
+	for p, id := range post {
+		if pre[p] == id {
+			continue
+		}
+		if b, ok := wt[p]; ok && st.Cmd() == "add" && st.Exit == 0 {
+			sp[p] = b
+		} else {
+			delete(sp, p)
+		}
+	}
+	for p := range pre {
+		if _, ok := post[p]; !ok {
+			delete(sp, p)
+		}
+	}
 }
 
 // effectiveIdentity: local over global, per key.
@@ -198,9 +220,14 @@ func (C02Mon) After(w *core.World, st *core.Step) {
 			w.Fail("C02.blob-bytes", "blob-missing", trig, "staged path %q: blob %s missing/undecodable after commit", p, short(id))
 			continue
 		}
+		sp, _ := w.Shadow["stagedBytesByPath"].(map[string][]byte)
 		if want, known := sb[id]; known {
 			if !bytes.Equal(want, o.Body) {
 				w.Fail("C02.blob-bytes", "blob-bytes-differ", trig, "path %q: blob %s does not hold the bytes the file had when staged", p, short(id))
+			}
+		} else if want, ok := sp[p]; ok {
+			if !bytes.Equal(want, o.Body) {
+				w.Fail("C02.blob-bytes", "blob-bytes-differ", trig, "path %q: the committed blob %s (%d bytes) does not hold the %d bytes the file had when `add` staged it", p, short(id), len(o.Body), len(want))
 			}
 		} else {
 			c.Count("C02.blob-unknown-provenance")
@@ -294,6 +321,15 @@ func runC02(c *core.Ctx) {
 				break
 			}
 			w.Write(p, k.content())
+		}
+		if w.Hist == 3 || (c.Thorough() && w.Hist%1500 == 3) {
+			// a file beyond 100 MiB in the committed snapshot
+			w.EditRand("huge.bin", "c02-huge", 100<<20+17)
+			k.goit("add", "huge.bin")
+			k.Do("commit")
+			w.Edit("rm", "huge.bin", nil)
+			k.goit("add", "huge.bin")
+			c.Count("scale.huge-file-histories")
 		}
 		if w.Hist%24 == 11 {
 			k.BoundaryFiles("blk/")
